@@ -31,7 +31,10 @@ Judge == ph = 0 /\ ph' = 1 /\ UNCHANGED c
 Next == Judge
 Spec == Init /\ [][Next]_vars
 Canon == \A i \in (c.n + 1)..MaxN : c.a[i] = 1
-Wanted == Canon /\ (c.n <= 2 \/ (c.n = 3 /\ Full3) \/ Differ(c.a, c.n) <= 2)
+\* (also: any first argument followed by one value repeated - a document with twice the same layout string, a
+\*  subject with twice the same pattern; three different non-filler arguments only with Full3)
+Repeated == c.n >= 3 /\ \A i \in 3..c.n : c.a[i] = c.a[2]
+Wanted == Canon /\ (c.n <= 2 \/ (c.n = 3 /\ Full3) \/ Differ(c.a, c.n) <= 2 \/ Repeated)
 Export == (ph = 1 /\ Wanted) =>
    CSVWrite("%1$s", <<ToJson([args |-> [i \in 1..c.n |-> c.a[i]],
                               table |-> [cl \in Classes |-> Predict(cl[1], cl[2], c.n)]])>>, IOEnv.OUT)
